@@ -37,10 +37,12 @@ KDef(k) == CASE k = "get_a"   -> [res |-> "A", method |-> "GET",  range |-> "non
              [] k = "get_e"   -> [res |-> "E", method |-> "GET",  range |-> "none"]
              [] k = "get_f"   -> [res |-> "F", method |-> "GET",  range |-> "none"]
              [] k = "head_a"  -> [res |-> "A", method |-> "HEAD", range |-> "none"]
+             [] k = "head_b"  -> [res |-> "B", method |-> "HEAD", range |-> "none"]
+             [] k = "head_c"  -> [res |-> "C", method |-> "HEAD", range |-> "none"]
              [] k = "range_a" -> [res |-> "A", method |-> "GET",  range |-> "ok"]
              [] k = "range_b" -> [res |-> "B", method |-> "GET",  range |-> "ok"]
              [] k = "bad_a"   -> [res |-> "A", method |-> "GET",  range |-> "bad"]
-AllKinds == {"get_a", "get_b", "get_c", "post_d", "get_e", "get_f", "head_a", "range_a", "range_b", "bad_a"}
+AllKinds == {"get_a", "get_b", "get_c", "post_d", "get_e", "get_f", "head_a", "head_b", "head_c", "range_a", "range_b", "bad_a"}
 Tracked == UNION {Def(r).hdrs : r \in Res} \cup {"content-range"}
 
 VARIABLES store, resp, out, n
